@@ -42,6 +42,11 @@ class Gen:
         self.globals = ["ga", "gb", "Gc"]
         self.f = features or {}
 
+    def idx_mark(self):
+        """sometimes: a marker that reads _forEachIndex - inside count / select / apply / findIf it is the index of the enclosing forEach
+        (these loops bind _x only), outside any forEach it is undefined"""
+        return [self.mark(Arr(S("idx"), Var("_forEachIndex")))] if self.rng.random() < 0.4 else []
+
     def mark(self, what=None):
         self.mark_id += 1
         return E(Un("diag_log", what if what is not None else N(self.mark_id)))
@@ -111,13 +116,13 @@ class Gen:
         if k == 2:
             return Un("call", self.block(d))
         if k == 3:
-            return Bin("count", Code(self.mark(Var("_x")), E(Bin(">", Var("_x"), N(r.randint(0, 4))))), self.arr(d))
+            return Bin("count", Code(self.mark(Var("_x")), *self.idx_mark(), E(Bin(">", Var("_x"), N(r.randint(0, 4))))), self.arr(d))
         if k == 4:
-            return Bin("select", self.arr(d), Code(E(Bin("<", Var("_x"), N(r.randint(0, 6))))))
+            return Bin("select", self.arr(d), Code(*self.idx_mark(), E(Bin("<", Var("_x"), N(r.randint(0, 6))))))
         if k == 5:
-            return Bin("apply", self.arr(d), Code(E(Bin("*", Var("_x"), N(2)))))
+            return Bin("apply", self.arr(d), Code(*self.idx_mark(), E(Bin("*", Var("_x"), N(2)))))
         if k == 6:
-            return Bin("findIf", self.arr(d), Code(E(Bin("==", Var("_x"), N(r.randint(0, 5))))))
+            return Bin("findIf", self.arr(d), Code(*self.idx_mark(), E(Bin("==", Var("_x"), N(r.randint(0, 5))))))
         if k == 7:
             return Bin("do", Un("switch", self.num(0)), Code(
                 E(Bin(":", Un("case", N(1)), self.block(d))),
